@@ -198,6 +198,12 @@ def check_episode(env_spec, d, ep, sim, violate, probe):
             if r["cls"] in OWN:
                 own_seen.append(r)
         # ordering and stamps along the whole log are checked below
+        # the episode is over exactly when its last timestep has been processed
+        want_done = (seg_i == len(exp_segments) - 1)
+        if bool(done_flags[seg_i]) != want_done:
+            violate("episode_end", "segment {} of {}: done={} but the episode's last timestep {} been reached".format(
+                seg_i, len(exp_segments) - 1, done_flags[seg_i], "has" if want_done else "has not"), kind="done_early" if done_flags[seg_i] else "not_done_at_end")
+            return
         names = [r["cls"] for r in own_seen if r["cls"] != "EventNewDate"]
         want = ["EventReset"] if seg_i == 0 else ["EventStep"]
         if done_flags[seg_i]:
